@@ -13,6 +13,7 @@
 //   RS s k l c                        virtual resize(components, dim_linear, dim_circular)
 //   R2 s k l                          virtual resize(components, dim_linear)   (default argument)
 //   GR s l c                          Gaussian::resize(dim_linear, dim_circular)
+//   G1 s l                            Gaussian::resize(dim_linear)   (default argument)
 //   AU s qr qc <qr*qc hex, col-major> augmentWithNoise
 //   PE dst src                        dst += src
 //   PL dst a b                        dst = a + b
@@ -170,10 +171,11 @@ static std::string shp(Toks& t) {
             if (!pool[dst].p || pool[dst].kind == GA || k < 1) skip = true;
             else if (op == "RS") pool[dst].p->resize(k, l, c);
             else pool[dst].p->resize(k, l);
-        } else if (op == "GR") {
-            dst = slot(t.nat()); long l = t.nat(), c = t.nat();
+        } else if (op == "GR" || op == "G1") {
+            dst = slot(t.nat()); long l = t.nat(), c = (op == "GR") ? t.nat() : 0;
             if (!pool[dst].p || pool[dst].kind != GA) skip = true;
-            else pool[dst].ga().resize(l, c);
+            else if (op == "GR") pool[dst].ga().resize(l, c);
+            else pool[dst].ga().resize(l);
         } else if (op == "AU") {
             dst = slot(t.nat()); long qr = t.nat(), qc = t.nat();
             MatrixXd Q = t.mat(qr, qc);
